@@ -38,6 +38,7 @@ def pairs(tier):
         (1, (1, 0, 0), 1, (0, 0, 0)), (2, (1, 0, 0), 2, (0, 0, 0)), (2, (0, 1, 0), 1, (0, 1, 0)), (1, (0, 1, 0), 2, (0, 2, 0)),
         (2, (1, 0, 1), 2, (0, 1, 0)), (3, (0, 0, 0), 0, (0, 0, 0)), (0, (1, 0, 0), 3, (0, 0, 0)), (3, (0, 1, 0), 1, (1, 0, 0)),
         (2, (2, 0, 0), 2, (1, 0, 0)), (1, (1, 1, 0), 1, (1, 0, 0)), (2, (0, 0, 0), 2, (0, 1, 0)), (0, (1, 1, 0), 1, (0, 1, 0)),
+        (4, (1, 0, 0), 4, (0, 0, 0)), (4, (0, 1, 0), 2, (0, 0, 0)), (5, (0, 0, 0), 4, (0, 0, 0)),       # degree >= 4: the number of quadrature points matters
     ]
     if tier != "quick":
         out += [(3, (1, 0, 1), 2, (0, 1, 0)), (2, (1, 1, 1), 2, (0, 1, 0)), (3, (0, 2, 0), 3, (0, 1, 0)), (1, (0, 0, 0), 3, (1, 1, 0)),
